@@ -35,6 +35,13 @@ def generate():
         append='#[path = "../h_put.rs"]\npub mod harness;\n',
         require=["async fn payment_for_us_exists_and_is_still_valid", "async fn validate_key_and_existence",
                  "pub(crate) async fn store_replicated_in_record", "pub(crate) async fn validate_and_store_scratchpad_record"]))
+    # the contract wrapper of evmlib (C03): verify_data_payment over a model PaymentVaultHandler
+    v, mv = extract_items("evmlib/src/contract/payment_vault/mod.rs", [("fn", "verify_data_payment")])
+    meta.append(mv)
+    write_if_changed(f"{DST}/payment_vault.rs",
+                     "// GENERATED from evmlib/src/contract/payment_vault/mod.rs item -- do not edit\n"
+                     "use crate::shim::vault::{error, http_provider, interface, PaymentVaultHandler};\n"
+                     "use ::ant_evm::EvmNetwork as Network;\nuse evmlib::common::{Address, Amount, QuoteHash};\nuse evmlib::quoting_metrics::QuotingMetrics;\n\n" + v + "\n")
     # client read paths (C15): items of autonomi
     a, m1 = extract_items("autonomi/src/client/data/public.rs", [("fn", "chunk_get")])
     b, m2 = extract_items("autonomi/src/client/vault.rs", [("enum", "VaultError"), ("fn", "get_vault_from_network")])
